@@ -590,11 +590,24 @@ def r16_3(chk, sdf, mol):
                     r = ca[2].as_atom()
                     if r and r[0] == "call" and call_name(r) == "len" and r[2][0].key() == base.key():
                         bounded = True
-            in_try = any((c.as_atom() or ("",))[0] == "except" for c, _ in ())
+            # ... and it does advance: the index grows by a positive constant in every pass (or the loop never ends)
+            body = [e for e in rev.events if e.loops and e.loops[-1].k == l.k]
+            base_g = min((len(e.guards) for e in body), default=0)
+            name = idx.as_atom()[1]
+            steps = [e for e in body if e.kind == "assign" and e.name == name and e.extra.get("aug") == "Add" and e.extra.get("delta") is not None
+                     and e.extra["delta"].const_value() is not None and e.extra["delta"].const_value() >= 1 and len(e.guards) == base_g]
+            chk.ob("R16.3", SDF, rq, "a loop that advances an index into the record's lines moves it forward in every pass", bool(steps), node=l.node,
+                   fingerprint="while-progress", expected=f"{name} += 1 inside the loop, unconditionally", found=[str(e.value)[:60] for e in body if e.kind == "assign" and e.name == name][:2])
             chk.ob("R16.3", SDF, rq, "a loop that advances an index into the record's lines is bounded by their number",
                    bounded, node=l.node, fingerprint="while-bound", expected="while idx < len(lines) and lines[idx]...",
                    found=str(l.iter.subs({lines2: LN}))[:200])
     chk.need(nwhile >= 1, f"{rq}: the property-block loop was not found")
+    # only what is not V2000 is refused
+    vr = [e for e in rev.events if e.kind == "raise" and e.guards and "V2000" in e.guards[-1][0].key()]
+    chk.ob("R16.3", SDF, rq, "a record is refused exactly when its version tag is not 'V2000'", len(vr) == 1 and
+           (vr[0].guards[-1][0].as_atom() or ("",))[0] == "eq" and not vr[0].guards[-1][1] and "['version']" in vr[0].guards[-1][0].key(),
+           fingerprint="version-test", expected="raise if counts['version'] != 'V2000'",
+           found=[f"{'' if e.guards[-1][1] else 'not '}{e.guards[-1][0]}"[:100] for e in vr])
     # records: split on the terminator and appended in order inside the loop over the pieces
     comp = [e for e in rev.events if e.kind == "assign" and e.name == "compounds"]
     okrec = False
